@@ -32,6 +32,7 @@ def run(ctx):
     gridfun.forwarding(ctx)
     gridfun.evaluate_rules(ctx)
     gridfun.l2_norm_rule(ctx)
+    gridfun.representations(ctx)
     gridfun.repo_lints(ctx)
     spaces.coefficient_maps(ctx)
     sparse.mass_matrices(ctx)
